@@ -16,7 +16,7 @@ sys.path.insert(0, V)
 import harnesses  # noqa: E402
 
 CLANG_BASE = ['clang++-14', '-std=c++20', os.environ.get('VF_OPT', '-O1'), '-fno-vectorize', '-fno-slp-vectorize', '-fno-unroll-loops', '-fno-strict-aliasing',
-              '-fno-builtin', '-nostdinc++', '-isystem', os.path.join(V, 'vstl'), '-I', os.path.join(V, 'rt'), '-I', os.path.join(V, 'shadow'),
+              '-fno-builtin', '-fno-pic', '-nostdinc++', '-isystem', os.path.join(V, 'vstl'), '-I', os.path.join(V, 'rt'), '-I', os.path.join(V, 'shadow'),
               '-I', os.path.join(V, 'harness', 'common'), '-I', os.path.join(V, 'env'), '-I', SRC, '-DMESON_BUILD', '-D_FILE_OFFSET_BITS=64',
               '-DVF_MODEL=1', '-D__NO_INLINE__', '-Wno-everything', '-c', '-emit-llvm']
 CBMC_FLAGS = ['--unwinding-assertions', '--signed-overflow-check', '--undefined-shift-check', '--drop-unused-functions',
@@ -43,12 +43,65 @@ def sh(cmd, cwd=None, timeout=None, env=None, mem_gb=None, inp=None):
         return -9, (e.stdout or b'').decode('utf-8', 'replace'), 'TIMEOUT', time.time() - t0
 
 
+SOLVER_FLAGS = {'minisat': [], 'kissat': ['--external-sat-solver', 'kissat'], 'cadical': ['--sat-solver', 'cadical']}
+
+
+def race(cmd, solvers, timeout, mem_gb):
+    """Run the same CBMC query with several SAT back ends in parallel; the first one to deliver a verdict wins."""
+    def lim():
+        b = int(mem_gb * (1 << 30))
+        resource.setrlimit(resource.RLIMIT_AS, (b, b))
+    t0 = time.time()
+    procs = []
+    import tempfile
+    for sv in solvers:
+        fo = tempfile.TemporaryFile()
+        p = subprocess.Popen(cmd + SOLVER_FLAGS[sv], stdout=fo, stderr=subprocess.DEVNULL, preexec_fn=lim, start_new_session=True)
+        procs.append((sv, p, fo))
+    winner, res = None, None
+    last = None
+    while time.time() - t0 < timeout and procs:
+        for sv, p, fo in list(procs):
+            if p.poll() is not None:
+                fo.seek(0)
+                out = fo.read().decode('utf-8', 'replace')
+                procs.remove((sv, p, fo))
+                last = (p.returncode, out, '', time.time() - t0, sv)
+                if '"result"' in out or not procs:
+                    winner = last
+                    break
+        if winner:
+            break
+        time.sleep(0.5)
+    for sv, p, fo in procs:
+        try:
+            os.killpg(p.pid, 15)
+        except Exception:
+            pass
+    if winner:
+        return winner
+    if last:
+        return last
+    return (-9, '', 'TIMEOUT', time.time() - t0, None)
+
+
 def fhash(paths):
     h = hashlib.sha256()
     for p in paths:
         with open(p, 'rb') as f:
             h.update(f.read())
     return h.hexdigest()[:16]
+
+
+def drop_inc(flags, path):
+    out, i = [], 0
+    while i < len(flags):
+        if flags[i] == '-I' and i + 1 < len(flags) and flags[i + 1] == path:
+            i += 2
+            continue
+        out.append(flags[i])
+        i += 1
+    return out
 
 
 def defs_flags(defs):
@@ -80,8 +133,9 @@ class Job:
             out.append((os.path.join(SRC, 'oomd', s), fl))
         return out
 
-    def cxx_srcs(self):
-        return [(os.path.join(V, s) if '/' in s else os.path.join(self.hdir, s), []) for s in self.h.get('cxx', [])]
+    def cxx_srcs(self, real=False):
+        lst = list(self.h.get('cxx', [])) + ([] if real else list(self.h.get('cxx_model', [])))
+        return [(os.path.join(V, s) if '/' in s else os.path.join(self.hdir, s), []) for s in lst]
 
     def c_srcs(self):
         return [os.path.join(V, s) if '/' in s else os.path.join(self.hdir, s) for s in self.h.get('c', [])]
@@ -91,6 +145,8 @@ class Job:
         os.makedirs(self.dir, exist_ok=True)
         bcs = []
         flags = CLANG_BASE + defs_flags(self.defs) + self.h.get('clang_flags', [])
+        if self.h.get('no_shadow'):
+            flags = drop_inc(flags, os.path.join(V, 'shadow'))   # use the real oomd/Log.h etc.
         procs = []
         for s, fl in self.oomd_srcs() + self.cxx_srcs():
             if not os.path.exists(s):
@@ -141,7 +197,7 @@ class Job:
         cmd = ['cbmc', self.gen] + self.c_srcs() + [os.path.join(V, 'rt', 'vf_rt.c'), os.path.join(V, 'rt', 'vf_num.c')]
         cmd += ['-I', os.path.join(V, 'rt'), '-I', self.hdir, '-I', os.path.join(V, 'harness', 'common'), '-DVF_GEN'] + defs_flags(self.defs) + list(extra_defs)
         cmd += ['--unwind', str(self.unwind), '--object-bits', str(self.h.get('object_bits', 12))] + CBMC_FLAGS + self.h.get('cbmc_flags', []) + self.var.get('cbmc_flags', [])
-        for u in self.h.get('unwindset', []) + self.var.get('unwindset', []):
+        for u in self.h.get('unwindset', []) + self.var.get('unwindset', []) + sorted(getattr(self, 'auto_unwindset', set())):
             cmd += ['--unwindset', u]
         return cmd
 
@@ -153,7 +209,10 @@ class Job:
                 cmd += ['--property', pid]
         else:
             self.res['cbmc_cmd'] = ' '.join(c.replace(V + '/', '') for c in cmd)
-        rc, out, err, dt = sh(cmd, timeout=self.timeout, mem_gb=self.mem)
+        solvers = self.var.get('solvers', self.h.get('solvers', ['minisat']))
+        rc, out, err, dt, winner = race(cmd, solvers, self.timeout, self.mem)
+        if not trace_props:
+            self.res['sat_backend'] = winner
         self.res['cbmc_wall_s'] = round(self.res.get('cbmc_wall_s', 0) + dt, 2)
         with open(os.path.join(self.dir, 'cbmc-trace.json' if trace_props else 'cbmc.json'), 'w') as f:
             f.write(out)
@@ -203,11 +262,13 @@ class Job:
     def build_native_real(self):
         exe = os.path.join(self.dir, 'native_real')
         inc = ['-I', os.path.join(V, 'rt'), '-I', os.path.join(V, 'shadow'), '-I', os.path.join(V, 'harness', 'common'), '-I', os.path.join(V, 'env'), '-I', SRC, '-I', self.hdir]
+        if self.h.get('no_shadow'):
+            inc = drop_inc(inc, os.path.join(V, 'shadow'))
         objs, procs = [], []
         odir = os.path.join(BUILD, 'realobj')
         os.makedirs(odir, exist_ok=True)
         dfl = defs_flags(self.defs)
-        for s, fl in self.oomd_srcs() + self.cxx_srcs() + [(os.path.join(V, 'rt', 'vf_real.cpp'), [])]:
+        for s, fl in self.oomd_srcs() + self.cxx_srcs(real=True) + [(os.path.join(V, 'rt', 'vf_real.cpp'), [])]:
             key = hashlib.sha256((s + ' '.join(dfl + fl) + ' '.join(REAL_FLAGS)).encode() + self.dephash(s)).hexdigest()[:20]
             o = os.path.join(odir, os.path.basename(s) + '.' + key + '.o')
             objs.append(o)
@@ -236,8 +297,11 @@ class Job:
             stub = os.path.join(self.dir, 'unresolved_stubs.s')
             with open(stub, 'w') as f:
                 f.write('.text\n')
-                for sy in syms:
-                    f.write('.globl %s\n.type %s,@function\n%s:\n  call vf_unresolved_stub\n' % (sy, sy, sy))
+                for k, sy in enumerate(syms):
+                    f.write('.globl %s\n.type %s,@function\n%s:\n  leaq .Lname%d(%%rip), %%rdi\n  call vf_unresolved_stub\n' % (sy, sy, sy, k))
+                f.write('.section .rodata\n')
+                for k, sy in enumerate(syms):
+                    f.write('.Lname%d: .string "%s"\n' % (k, sy))
                 f.write('.section .note.GNU-stack,"",@progbits\n')
             rc, o, e, _ = sh(link + [stub, '-lm', '-lpthread', '-o', exe])
             if rc:
@@ -327,6 +391,36 @@ def run_job(job, ndiff):
     try:
         job.build_gen()
         results = job.run_cbmc()
+        # Unwind refinement: the default bound is small; loops that provably need more (failed unwinding assertion) get the
+        # big bound (string capacity + 1) through --unwindset and the query is repeated. The discovered set is cached in
+        # harness/unwindsets/ (committed) so that later runs start from it. Soundness is unaffected: a run only counts when
+        # every unwinding assertion passes.
+        big = job.var.get('unwind_big', job.h.get('unwind_big'))
+        if big:
+            cache = os.path.join(V, 'harness', 'unwindsets', job.id + '.txt')
+            job.auto_unwindset = set(open(cache).read().split()) if os.path.exists(cache) else set()
+            if job.auto_unwindset:
+                results = job.run_cbmc()
+            for _round in range(20):
+                uf = [p for p in results if p['status'] == 'FAILURE' and 'unwinding assertion' in p.get('description', '')]
+                if not uf:
+                    break
+                new = set()
+                for p in uf:
+                    m = re.match(r'^(.*)\.unwind\.(\d+)$', p.get('property', ''))
+                    if m:
+                        new.add('%s.%s:%d' % (m.group(1), m.group(2), big))
+                if not new or new <= job.auto_unwindset:
+                    break
+                job.auto_unwindset |= new
+                results = job.run_cbmc()
+            r['unwind_refined_loops'] = sorted(job.auto_unwindset)
+            if job.auto_unwindset:
+                try:
+                    os.makedirs(os.path.dirname(cache), exist_ok=True)
+                    open(cache, 'w').write('\n'.join(sorted(job.auto_unwindset)) + '\n')
+                except Exception:
+                    pass
         props = {}
         for p in results:
             d = p.get('description', '')
@@ -336,6 +430,10 @@ def run_job(job, ndiff):
         unknown = [p for p in results if p['status'] not in ('SUCCESS', 'FAILURE')]
         if unknown:
             raise Broken('cbmc status %s for %s' % (unknown[0]['status'], unknown[0].get('description')))
+        unwind_fail = [p for p in fails if 'unwinding assertion' in p.get('description', '')]
+        if unwind_fail:
+            loc = unwind_fail[0].get('sourceLocation', {})
+            raise Broken('unwinding assertion failed (bound %d too small) at %s:%s %s' % (job.unwind, loc.get('function'), loc.get('line'), unwind_fail[0].get('property')))
         # vacuity: every REACH/WITNESS obligation must be violated
         exp = [p for p in results if is_expected_fail(p.get('description', ''))]
         if not exp:
@@ -345,10 +443,6 @@ def run_job(job, ndiff):
         if notreached and (not job.var.get('reach_optional') or any(x.startswith('WITNESS') for x in notreached)):
             raise Broken('vacuous: not reachable: ' + '; '.join(notreached))
         r['reach_ok'] = sorted({p['description'] for p in exp if p['status'] == 'FAILURE'})
-        unwind_fail = [p for p in fails if 'unwinding assertion' in p.get('description', '')]
-        if unwind_fail:
-            loc = unwind_fail[0].get('sourceLocation', {})
-            raise Broken('unwinding assertion failed (bound %d too small) at %s:%s %s' % (job.unwind, loc.get('function'), loc.get('line'), unwind_fail[0].get('property')))
         model_fail = [p for p in fails if p.get('description', '').startswith('model:') or p.get('description', '').startswith('translator:')]
         if model_fail:
             raise Broken('model bound assertion failed: ' + model_fail[0]['description'])
@@ -384,8 +478,8 @@ def run_job(job, ndiff):
                 rc2, o2, e2 = job.run_native(nr, seed=sd)
                 if rc1 == 77 and rc2 == 77:
                     continue
-                if rc1 != rc2 or o1.replace('ESCAPED-EXCEPTION', '').split('\n')[-30:] != o2.replace('ESCAPED-EXCEPTION', '').split('\n')[-30:]:
-                    if norm_out(o1) != norm_out(o2) or (rc1 != rc2 and not (rc2 == 66)):
+                if True:
+                    if norm_out(o1, job.h.get('diff_unordered')) != norm_out(o2, job.h.get('diff_unordered')) or (rc1 != rc2 and not (rc2 == 66)):
                         raise Broken('ENCODING-MISMATCH seed=%d: generated-C build and real build disagree\n--- gen rc=%s\n%s\n--- real rc=%s\n%s\n%s' % (sd, rc1, o1[-1500:], rc2, o2[-1500:], e2[-1500:]))
                 ok += 1
             r['diff_runs'] = ok
@@ -442,8 +536,9 @@ def run_job(job, ndiff):
     return r
 
 
-def norm_out(o):
-    return [l for l in o.splitlines() if l.startswith(('EV ', 'ASSERT-FAIL', 'DONE', 'PENDING'))]
+def norm_out(o, unordered=False):
+    ls = [l for l in o.splitlines() if l.startswith(('EV ', 'ASSERT-FAIL', 'DONE', 'PENDING'))]
+    return sorted(ls) if unordered else ls
 
 
 def load_known():
@@ -463,6 +558,7 @@ def main():
     ap.add_argument('--tier', default=os.environ.get('VERIF_TIER', 'quick'))
     ap.add_argument('--only', default=None, help='run only this harness (debug)')
     ap.add_argument('--ndiff', type=int, default=None)
+    ap.add_argument('--variant', default=None, help='only variants whose name contains this (debug)')
     ap.add_argument('--jobs', type=int, default=int(os.environ.get('VF_JOBS', '8')))
     ap.add_argument('--replay', default=None, help='replay an nd file: harness.variant:path')
     a = ap.parse_args()
@@ -480,6 +576,8 @@ def main():
         vs = h.get('variants', {}).get(tier) or h.get('variants', {}).get('quick') or [{}]
         for i, var in enumerate(vs):
             if 'props' in var and a.prop not in var['props'] and a.prop != 'ALL':
+                continue
+            if a.variant and a.variant not in var.get('name', ''):
                 continue
             jobs.append(Job(hname, h, var.get('name', 'v%d' % i), var, tier))
             jobs[-1].prop = a.prop
